@@ -379,7 +379,8 @@ class ModelMixin2:
             if isinstance(start, Const) and isinstance(start.v, int):
                 if inner.exact is not None:
                     return Ref('idx', s.new(IdxE('const', const=start.v + k, descr=str(start.v + k))))
-                return Ref('idx', s.new(IdxE('foreign', why=f'position in {src_descr}', descr=f'position in {src_descr}')))
+                pos = ((len(s.frames), s.frame.loops), min(k, 1)) if start.v == 0 else None
+                return Ref('idx', s.new(IdxE('foreign', why=f'position in {src_descr}', descr=f'position in {src_descr}', pos=pos)))
             return Ref('idx', s.new(IdxE('foreign', why=f'enumerate counter starting at {self.describe(start, s)}')))
 
         if inner.exact is not None:
@@ -403,6 +404,7 @@ class ModelMixin2:
         sp = IterSpec(inner.lo, inner.hi, None, make, f'enumerate({src_descr})', ordered=inner.ordered)
         sp.live_parent = getattr(inner, 'live_parent', None)
         sp.adv = base_entry
+        sp.lazy_adv = base_entry is None and isinstance(start, Const) and start.v == 0 and not over_children
         sp.listsym = getattr(inner, 'listsym', None)
         return sp
 
@@ -427,6 +429,24 @@ class ModelMixin2:
                     status = ('stale', 'the loop body ' + '+'.join(r[0] for r in rel) + 's children of the same parent while the counter advances by one')
             adv[depth] = status
             st.mon['adv'] = adv
+        elif getattr(spec, 'lazy_adv', False) and count > 0:
+            # `<index> + offset` with offset the 0-based counter: the same protocol, the base being known only at the sum
+            status = adv.get(depth, ('ok', ''))
+            if status[0] == 'ok':
+                csym = (st.mon.get('advsym') or {}).get(depth)
+                base = (st.mon.get('advbase') or {}).get(depth)
+                cent = st.heap.get(csym) if csym is not None else None
+                rel = [r for r in prev if cent is None or r[1] == cent.parent]
+                if cent is not None and len(rel) == 1 and rel[0][0] == 'insert' and rel[0][3] == csym:
+                    pass
+                elif not rel:
+                    if base is None or base.kind != 'end':
+                        status = ('gapped', 'the counter advanced in an iteration that inserted nothing')
+                elif cent is not None:
+                    status = ('stale', 'the loop body ' + '+'.join(r[0] for r in rel) + 's children of the same parent while the counter advances by one')
+                if status[0] != 'ok':
+                    adv[depth] = status
+                    st.mon['adv'] = adv
         logs[depth] = ()
         st.mon['itlog'] = logs
         lp = getattr(spec, 'live_parent', None)
@@ -457,11 +477,37 @@ class ModelMixin2:
         st.mon['advsym'] = m
         return Ref('idx', sym)
 
+    def adv_sum(self, st: State, l: Ref, pos, node):
+        """<index> + <0-based enumerate counter of an enclosing loop>"""
+        depth, k = pos
+        status = (st.mon.get('adv') or {}).get(depth, ('ok', ''))
+        cur: IdxE = st.get(l.sym)
+        bases = dict(st.mon.get('advbase') or {})
+        if k == 0:
+            bases[depth] = replace(cur, descr='')          # kept outside the heap: later inserts must not age it
+            st.mon['advbase'] = bases
+            e = replace(cur, descr='')
+        else:
+            base = bases.get(depth)
+            if status[0] != 'ok':
+                e = IdxE(status[0], cur.parent, cur.anchor, why=status[1])
+            elif base is None:
+                e = cur if cur.kind == 'end' else IdxE('gapped', cur.parent, cur.anchor, why='the counter advanced in iterations that inserted nothing')
+            else:
+                e = replace(base, descr='')
+                if base.kind == 'slot':
+                    e = replace(base, kind='fresh', anchor=None, why='position after the nodes inserted so far')
+        sym = st.new(e)
+        m = dict(st.mon.get('advsym') or {})
+        m[depth] = sym
+        st.mon['advsym'] = m
+        return Ref('idx', sym)
+
     def loop_exit(self, st, depth, spec, count):
         pass
 
     def loop_done(self, st: State, depth):
-        for name in ('itlog', 'adv', 'advsym', 'livedepth'):
+        for name in ('itlog', 'adv', 'advsym', 'advbase', 'livedepth'):
             m = st.mon.get(name)
             if m and depth in m:
                 m = dict(m)
@@ -552,6 +598,7 @@ class ModelMixin2:
                                     if isinstance(v, Raise):
                                         outs.append((('raise', v.exc), s5))
                                         continue
+                                    self.hook('comp-yield', s5, e, value=v)
                                     self.forget_facts(s5, self._elem_mark(elem, s5))
                                     pend = s5.frame.env.get('%comp', TupleV(()))
                                     key = self._vk(v, s5)
@@ -840,6 +887,14 @@ class ModelMixin2:
             else:
                 e2 = e
             return [(Ref('idx', st.new(e2)), st)]
+        if opn == 'Add' and isinstance(l, Ref) and isinstance(r, Ref) and l.kind == 'idx' and r.kind == 'idx':
+            le_, re_ = st.get(l.sym), st.get(r.sym)
+            if re_.pos is None and le_.pos is not None:
+                l, r, le_, re_ = r, l, re_, le_
+            if re_.pos is not None and le_.pos is None:
+                return [(self.adv_sum(st, l, re_.pos, node), st)]
+            if re_.kind == 'const' and le_.kind != 'const':
+                return self.model_binop(op, l, Const(re_.const), st, node)
         if isinstance(l, Ref) and l.kind == 'idx' and isinstance(r, (Ref, LenV, NumV, Unknown)):
             e: IdxE = st.get(l.sym)
             return [(Ref('idx', st.new(IdxE('foreign', why=f'arithmetic on {self.describe(l, st)}'))), st)]
